@@ -293,7 +293,10 @@ def run_c17(tier, seed, replay):
         import hashlib
         digest = lambda pth: hashlib.sha256(open(pth, "rb").read()).hexdigest() if os.path.exists(pth) else None
         before = digest(outzip)
-        pr = subprocess.run(args, capture_output=True, text=True, timeout=600)
+        try:
+            pr = subprocess.run(args, capture_output=True, text=True, timeout=600)
+        except subprocess.TimeoutExpired:
+            raise ToolError("hctl-model-checker did not terminate within 600 s: %s" % " ".join(args[1:]))
         after = digest(outzip)
         sem_doc = json.load(open(os.path.join(wd, "sem", "n_" + run["id"] + ".json")))
         call = sem_doc["cases"][0]["calls"][0]
@@ -411,7 +414,11 @@ def run_c19(tier, seed, replay):
         bits = sum(2 ** p_["arity"] for p_ in n_in["params"]) + sum(2 ** len(f["regs"]) for f in n_in["fns"] if f["op"] == "implicit")
         if bits > 12 or len(n_in["vars"]) > 4 or any(p_["arity"] > 3 for p_ in n_in["params"]):
             continue
-        pr = subprocess.run([binp], input=c["model"], capture_output=True, text=True, timeout=120)
+        try:
+            pr = subprocess.run([binp], input=c["model"], capture_output=True, text=True, timeout=120)
+        except subprocess.TimeoutExpired:
+            # not a statement about the family of functions (the property): reported as a tool error (exit 2)
+            raise ToolError("the converter did not terminate within 120 s on the %d-variable model %r" % (len(n_in.get("vars", [])), c["model"][:200]))
         ev = {"id": c["id"], "kinds": ["c19"], "model": c["model"], "net_in": n_in, "exit": pr.returncode,
               "panicked": "panicked" in pr.stderr, "stderr": pr.stderr[-300:], "stdout": pr.stdout[-2000:],
               "reload_ok": False, "net_out": n_in}
